@@ -98,7 +98,7 @@ fn main() {
                 for it in &items {
                     if let spec::Item::Fn(fs) = it {
                         let src = idx.lookup_fn(&fs.key, &fs.file);
-                        if let Some((p, l, sh)) = rewrite::bound_names(&src.text) { out.insert(fs.key.clone(), serde_json::json!({"params": p, "lets": l, "shapes": sh})); }
+                        if let Some((p, l, sh)) = rewrite::bound_names(&src.text) { let (nl, nc) = rewrite::count_loops_closures(&src.text).unwrap_or((0, 0)); out.insert(fs.key.clone(), serde_json::json!({"params": p, "lets": l, "shapes": sh, "n_loops": nl, "n_closures": nc})); }
                     }
                 }
                 println!("{}", serde_json::to_string_pretty(&serde_json::Value::Object(out)).unwrap());
